@@ -61,11 +61,13 @@ def native_checks():
         except Exception as e:  # noqa: BLE001
             bad.append([nm, 'family grammar does not compile', repr(e)[:150]])
             continue
-        vs = variants_of(m, g, ['json', 'pickle', 'modelsrc'])
+        vs = variants_of(m, g, ['json', 'pickle', 'pickle_used', 'modelsrc'])
         for (what, ok, detail) in concrete_relation(m, vs):
             if not ok:
+                if nm == 'constants_text' and what == 'json:pretty-text' and 'F6' in known:
+                    continue        # known finding F6: the constant text f{y:>3} is read back as a Style by the JSON loader (reported by the string-sniffing check below)
                 bad.append([nm, what, repr(detail)[:200]])
-    out.append({'name': f'json_pickle_modelsrc_same_rules_directives_keywords[{len(FAMILY)}]', 'ok': not bad, 'detail': bad[:8]})
+    out.append({'name': f'json_pickle_modelsrc_same_rules_directives_keywords_and_pretty_text[{len(FAMILY)}]', 'ok': not bad, 'detail': bad[:8]})
     # asjson of parse results and object models terminates and dumps; shared/cyclic references rendered as references
     bad = []
     from tatsu.util.asjson import asjson
@@ -130,7 +132,7 @@ def plan(tier, seed):
                 continue
             pre = ' and '.join(f'c{i} < 128' for i in range(n)) if nm == 'meta' else ''
             extra = {'known': {'json': 'F6'}, 'prop': 'C14'} if nm == 'constants_text' else {}
-            obs.append(Ob(name=f'{nm}_L{n}', factory='vt.equiv:make_equiv', spec={'program': nm, 'gtext': FAMILY[nm], 'variants': ['json', 'pickle', 'modelsrc'], 'n': n, **extra},
+            obs.append(Ob(name=f'{nm}_L{n}', factory='vt.equiv:make_equiv', spec={'program': nm, 'gtext': FAMILY[nm], 'variants': ['json', 'pickle', 'pickle_used', 'modelsrc'], 'n': n, **extra},
                           params=[(f'c{i}', 0, UNI) for i in range(n)], budget={0: 40, 1: 40, 2: 150, 3: 700, 4: 3000}[n], group='reload', extra_pre=pre))
     for n in ((1, 2, 3) if tier == 'quick' else (1, 2, 3, 4)):
         obs.append(Ob(name=f'S_sniff_len{n}', factory='vt.props.c14:make_sniff', spec={'n': n, 'program': 'string-sniffing'}, params=[(f'c{i}', 0, UNI) for i in range(n)],
